@@ -42,7 +42,7 @@ func init() { log.SetOutput(io.Discard) }
 // StreamPlan is one stream of the association.
 type StreamPlan struct {
 	ID     uint16 `json:"id"`
-	Sizes  []int  `json:"sizes"`  // payload length of the tag AVP of each message (>= 8)
+	Sizes  []int  `json:"sizes"`  // payload length of the tag AVP of each message (>= 8); 0 = a message without any AVP (header only)
 	Chunks []int  `json:"chunks"` // chunk lengths; they sum to the stream's byte count
 }
 
@@ -112,11 +112,27 @@ func msgHeader(c *Case, id uint16, seq int) refcodec.Header {
 }
 
 func msgBytes(c *Case, id uint16, seq, size int) []byte {
+	if size == 0 { // header only: identified by its identifiers
+		return refcodec.EncodeMessage(msgHeader(c, id, seq), nil, false)
+	}
 	return refcodec.EncodeMessage(msgHeader(c, id, seq),
 		[]*refcodec.Node{{Code: tagCode, Flags: tagFlags, Payload: tagPayload(id, seq, size)}}, false)
 }
 
-func msgLen(size int) int { return 20 + 8 + refcodec.Pad4(size) }
+func msgLen(size int) int {
+	if size == 0 {
+		return 20
+	}
+	return 20 + 8 + refcodec.Pad4(size)
+}
+
+// bareLabel is the label of a header-only message, recovered from its End-to-End identifier.
+func bareLabel(e2e uint32) []byte {
+	b := make([]byte, tagPrefix)
+	binary.BigEndian.PutUint16(b[0:], uint16(e2e))
+	binary.BigEndian.PutUint16(b[2:], uint16(e2e>>16)&0xff)
+	return b
+}
 
 func (s *StreamPlan) total() int {
 	n := 0
@@ -141,7 +157,7 @@ func (c *Case) validate() error {
 		}
 		seen[s.ID] = true
 		for _, z := range s.Sizes {
-			if z < tagPrefix || z > 1<<20 {
+			if z != 0 && (z < tagPrefix || z > 1<<20) {
 				return fmt.Errorf("stream %d: payload size %d", s.ID, z)
 			}
 		}
@@ -273,6 +289,9 @@ func runCase(c Case) *ev.Failure {
 		if len(short) > tagPrefix {
 			short = short[:tagPrefix]
 		}
+		if len(m.AVP) == 0 && m.Header.EndToEndID>>24 == 0x5a {
+			short = bareLabel(m.Header.EndToEndID)
+		}
 		a.NewAVP(tagCode, tagFlags, 0, datatype.OctetString(short))
 		_, err := a.WriteTo(conn)
 		mu.Lock()
@@ -356,6 +375,25 @@ func runCase(c Case) *ev.Failure {
 	}
 	perStream := make([][]delivery, len(c.Streams))
 	for n, d := range got {
+		if d.navp == 0 && d.hdr.EndToEndID>>24 == 0x5a { // a header-only message
+			lb := bareLabel(d.hdr.EndToEndID)
+			id := binary.BigEndian.Uint16(lb)
+			seq := int(binary.BigEndian.Uint16(lb[2:]))
+			i, ok := idx[id]
+			if !ok || seq >= len(c.Streams[i].Sizes) || c.Streams[i].Sizes[seq] != 0 {
+				return ev.Failf("stream-bytes-mixed", "delivery %d is a header-only message with End-to-End id %#x, which was never sent%s", n, d.hdr.EndToEndID, diag())
+			}
+			wh := msgHeader(&c, id, seq)
+			if d.hdr.CommandCode != wh.Code || d.hdr.ApplicationID != wh.App || d.hdr.CommandFlags != wh.Flags || d.hdr.HopByHopID != wh.HopByHop || d.hdr.MessageLength != 20 {
+				return ev.Failf("stream-bytes-mixed", "delivery %d, the header-only message %s, does not have the header that was sent: %+v%s", n, label(lb), d.hdr, diag())
+			}
+			if d.stream != uint(id) {
+				return ev.Failf("wrong-stream-reported", "header-only message %s arrived on stream %d but MessageStream() reports %d%s", label(lb), id, d.stream, diag())
+			}
+			d.tag = lb
+			perStream[i] = append(perStream[i], d)
+			continue
+		}
 		if len(d.tag) < tagPrefix || d.navp != 1 || d.code != tagCode {
 			return ev.Failf("stream-bytes-mixed", "delivery %d (reported stream %d) is not one of the messages sent: %d AVPs, first code %d, tag %x...%s",
 				n, d.stream, d.navp, d.code, head(d.tag, 16), diag())
@@ -532,6 +570,14 @@ func classify(c Case) (bool, []string) {
 	interleavedMsgs := 0
 	for i := range c.Streams {
 		s := &c.Streams[i]
+		for _, z := range s.Sizes {
+			if z == 0 {
+				cl["header-only-message"] = true
+				if s.ID != 0 {
+					cl["header-only-message-on-stream>0"] = true
+				}
+			}
+		}
 		if len(s.Sizes) == 0 {
 			cl["stream-without-messages"] = true
 			continue
@@ -659,7 +705,9 @@ func classify(c Case) (bool, []string) {
 func genSize(t *rapid.T) int {
 	// The > 64 KiB class (the body is then read in two pieces) is kept rare: the hook's registry keeps every
 	// diam.SCTPConn of the process reachable, and with it the capacity of its per-stream buffers.
-	switch k := rapid.IntRange(0, 59).Draw(t, "size-class"); {
+	switch k := rapid.IntRange(0, 63).Draw(t, "size-class"); {
+	case k >= 60:
+		return 0 // header only
 	case k < 24:
 		return rapid.IntRange(8, 60).Draw(t, "tiny")
 	case k < 42:
